@@ -13,6 +13,7 @@
 //	3  the real fastPathUnion / fastPathIntersection / fastPathDifference on generated streams
 //	4  the real (*LocalChecker).weight2 on generated producers
 //	5  ListObjects: classic / optimised / pipeline engines x pipeline tuning, as sets
+//	6  the sorted ReadStartingWithUser producer: OrderedCombinedIterator + condition filter
 package main
 
 import (
@@ -473,6 +474,11 @@ func main() {
 				if json.Unmarshal(sc.Bytes(), &c) == nil {
 					runFP(w, c)
 				}
+			case 6:
+				var c srcCase
+				if json.Unmarshal(sc.Bytes(), &c) == nil {
+					runSrc(w, c)
+				}
 			case 4:
 				var c w2Case
 				if json.Unmarshal(sc.Bytes(), &c) == nil {
@@ -498,7 +504,9 @@ func main() {
 		if only == "1" {
 			continue
 		}
-		if noErr && i%2 == 0 {
+		if noErr && i%2 == 0 && !s.DupThis() {
+			// (models that name the direct assignment twice make the pipeline engine hang — known
+			// finding, replayed from corpus/C02-witnesses.jsonl on every run — and are left out here)
 			runLO(ctx, w, rr, g, s, nil)
 		}
 		t0 := time.Now()
@@ -512,6 +520,9 @@ func main() {
 		t2 := time.Now()
 		for k := 0; k < 3; k++ {
 			runBFS(ctx, w, rigs, o.Seed, genBFS(rr))
+		}
+		for k := 0; k < 6; k++ {
+			runSrc(w, genSrc(rr))
 		}
 		w.Stat("ms_fastpath", int(t1.Sub(t0).Milliseconds()))
 		w.Stat("ms_weight2", int(t2.Sub(t1).Milliseconds()))
